@@ -1831,6 +1831,8 @@ func TestVerifC15(t *testing.T) {
 	// (zz_verif_C15big_test.go).
 	c15Overlap(t, out, srv, false)
 	c15Overlap(t, out, srv, true)
+	c15OverlapAdd(t, out, srv)
+	c15OverlapRemove(t, out, srv)
 	c15BigBodies(t, out, srv)
 
 	r := vfNewRand(out.Seed)
